@@ -33,7 +33,8 @@ def fp16_to_float(float16):
 
     if e == 0:
         if f == 0:
-            return int(s << 31)
+            # signed zero
+            return struct.unpack('f', struct.pack('I', int(s << 31)))[0]
         else:
             while not (f & 0x00000400):
                 f <<= 1
@@ -42,10 +43,12 @@ def fp16_to_float(float16):
             f &= ~0x00000400
             # print(s,e,f)
     elif e == 31:
+        # infinity and NaN
         if f == 0:
-            return int((s << 31) | 0x7f800000)
+            result = int((s << 31) | 0x7f800000)
         else:
-            return int((s << 31) | 0x7f800000 | (f << 13))
+            result = int((s << 31) | 0x7f800000 | (f << 13))
+        return struct.unpack('f', struct.pack('I', result))[0]
 
     e += 127 - 15
     f <<= 13
